@@ -2,7 +2,10 @@ module grulesim
 
 go 1.24.4
 
-require github.com/hyperjumptech/grule-rule-engine v0.0.0
+require (
+	github.com/hyperjumptech/grule-rule-engine v0.0.0
+	github.com/sirupsen/logrus v1.9.3
+)
 
 require (
 	dario.cat/mergo v1.0.2 // indirect
@@ -24,7 +27,6 @@ require (
 	github.com/pjbgf/sha1cd v0.3.2 // indirect
 	github.com/rs/zerolog v1.34.0 // indirect
 	github.com/sergi/go-diff v1.4.0 // indirect
-	github.com/sirupsen/logrus v1.9.3 // indirect
 	github.com/skeema/knownhosts v1.3.1 // indirect
 	github.com/xanzy/ssh-agent v0.3.3 // indirect
 	go.uber.org/multierr v1.11.0 // indirect
